@@ -499,7 +499,7 @@ class CryptographyEngine(api.CryptographicEngine):
                 mode = mode()
 
         # Pad the plain text if needed (separate methods for testing purposes)
-        if cipher_mode in [
+        if mode is not None and cipher_mode in [
                 enums.BlockCipherMode.CBC,
                 enums.BlockCipherMode.ECB
         ]:
@@ -857,7 +857,7 @@ class CryptographyEngine(api.CryptographicEngine):
 
         # Unpad the plain text if needed (separate methods for testing
         # purposes)
-        if cipher_mode in [
+        if mode is not None and cipher_mode in [
                 enums.BlockCipherMode.CBC,
                 enums.BlockCipherMode.ECB
         ]:
